@@ -524,3 +524,214 @@ func ZZ_H03b_RateLemma() {
 	zzvrt.Assert((&countingStats{}).failureRate() == 0, "rate: zero executions give rate 0")
 	zzvrt.Reach("rate-lemma-done")
 }
+
+// ---------------------------------------------------------------------------------------------
+// H03d: one step of the state machine from an ARBITRARY window content (inductive in the window: the counts are symbolic,
+// the ring / bucket mechanics that maintain them are H03a / H03c). zzStats is a stats stub whose counts are whatever the
+// harness says; a record first lets an arbitrary part of the window expire or be evicted (as time passing or a full ring
+// would), then counts the new result. Rates use the integer rounding proved for the real stats types by H03b.
+type zzStats struct {
+	s, f   uint
+	cap    uint // window capacity of a counting window (0: time window, no capacity)
+	evictS bool // a full counting window evicts this kind of result next (harness nondet, consistent with the counts)
+	dropS  uint // results leaving a time window before the next record
+	dropF  uint
+}
+
+func (z *zzStats) executionCount() uint { return z.s + z.f }
+func (z *zzStats) failureCount() uint   { return z.f }
+func (z *zzStats) successCount() uint   { return z.s }
+func (z *zzStats) failureRate() uint    { return zzPct(z.f, z.s+z.f) }
+func (z *zzStats) successRate() uint    { return zzPct(z.s, z.s+z.f) }
+func (z *zzStats) reset()               { z.s, z.f = 0, 0 }
+func (z *zzStats) leave() {
+	if z.cap == 0 {
+		z.s -= z.dropS
+		z.f -= z.dropF
+		return
+	}
+	if z.s+z.f == z.cap {
+		if z.evictS {
+			z.s--
+		} else {
+			z.f--
+		}
+	}
+}
+func (z *zzStats) recordFailure() { z.leave(); z.f++ }
+func (z *zzStats) recordSuccess() { z.leave(); z.s++ }
+
+func zzSmall(name string, lo, hi uint) uint {
+	v := zzvrt.Uint(name)
+	zzvrt.Assume(v >= lo)
+	zzvrt.Assume(v <= hi)
+	return v
+}
+
+func ZZ_H03d_StateStep() {
+	maxC := uint(zzvrt.Param("max_cap", 4))
+	cb := Builder[int]().Build().(*circuitBreaker[int])
+	clk := &zzClock{}
+	cb.clock = clk
+	D := zzvrt.Duration("delay")
+	zzvrt.Assume(D >= 0)
+	zzvrt.Assume(D < 1<<40)
+	cb.Delay = D
+	fam := zzvrt.Choose("family", 4)
+	var fth, c, sth, cs, r, e uint
+	timed := false
+	switch fam {
+	case 0: // failure threshold ratio fth of c
+		c = zzSmall("capacity", 1, maxC)
+		fth = zzSmall("failureThreshold", 1, c)
+		cb.failureThreshold, cb.failureThresholdingCapacity = fth, c
+	case 1: // + success threshold ratio sth of cs
+		c = zzSmall("capacity", 1, maxC)
+		fth = zzSmall("failureThreshold", 1, c)
+		cs = zzSmall("successCapacity", 1, maxC)
+		sth = zzSmall("successThreshold", 1, cs)
+		cb.failureThreshold, cb.failureThresholdingCapacity = fth, c
+		cb.successThreshold, cb.successThresholdingCapacity = sth, cs
+	case 2: // failure count within a period
+		fth = zzSmall("failureThreshold", 1, maxC)
+		c, e, timed = fth, fth, true
+		cb.failureThreshold, cb.failureThresholdingCapacity, cb.failureExecutionThreshold, cb.failureThresholdingPeriod = fth, fth, fth, 1000
+	case 3: // failure rate r% with at least e executions within a period
+		r = zzSmall("rate", 1, 100)
+		e = zzSmall("executionThreshold", 1, maxC)
+		timed = true
+		cb.failureThreshold, cb.failureThresholdingCapacity = 0, 0
+		cb.failureRateThreshold, cb.failureExecutionThreshold, cb.failureThresholdingPeriod = r, e, 1000
+	}
+	hc := cs // trial capacity
+	if hc == 0 {
+		hc = e
+	}
+	if hc == 0 {
+		hc = c
+	}
+	opens, closes, changes := 0, 0, 0
+	var oldSeen State
+	cb.openListener = func(ev StateChangedEvent) { opens++; oldSeen = ev.OldState }
+	cb.closeListener = func(ev StateChangedEvent) { closes++; oldSeen = ev.OldState }
+	cb.stateChangedListener = func(ev StateChangedEvent) { changes++ }
+
+	st := &zzStats{s: zzvrt.Uint("successes"), f: zzvrt.Uint("failures"), evictS: zzvrt.Bool("evict-success")}
+	zzvrt.Assume(st.s <= 64)
+	zzvrt.Assume(st.f <= 64)
+	mode := State(zzvrt.Choose("state", 3))
+	now := zzvrt.Int64("now")
+	zzvrt.Assume(now >= 0)
+	zzvrt.Assume(now < 1<<46)
+	clk.t = now
+	permits := uint(0)
+	switch mode {
+	case ClosedState:
+		if timed {
+			st.dropS, st.dropF = zzvrt.Uint("expired-successes"), zzvrt.Uint("expired-failures")
+			zzvrt.Assume(st.dropS <= st.s)
+			zzvrt.Assume(st.dropF <= st.f)
+		} else {
+			st.cap = c
+			zzvrt.Assume(st.s+st.f <= c)
+		}
+		cb.state = &closedState[int]{breaker: cb, stats: st}
+	case HalfOpenState:
+		st.cap = hc
+		zzvrt.Assume(st.s+st.f < hc) // the result being recorded belongs to an admitted trial: the window is not yet full of decided ones
+		permits = zzvrt.Uint("permits")
+		zzvrt.Assume(permits+st.s+st.f < hc) // at least this trial is in flight
+		cb.state = &halfOpenState[int]{breaker: cb, stats: st, permittedExecutions: permits}
+	case OpenState:
+		start := zzvrt.Int64("openedAt")
+		zzvrt.Assume(start >= 0)
+		zzvrt.Assume(start <= now)
+		cb.state = &openState[int]{breaker: cb, stats: st, startTime: start, delay: D}
+		// open: a permit request half-opens exactly once the delay has elapsed (boundary included), else is refused
+		rem := cb.RemainingDelay()
+		el := time.Duration(now - start)
+		if el >= D {
+			zzvrt.Assert(rem == 0, "breaker-step: remaining delay is zero once the delay has elapsed")
+		} else {
+			zzvrt.Assert(rem == D-el, "breaker-step: remaining delay is the delay minus the time spent open")
+		}
+		got := cb.TryAcquirePermit()
+		if el >= D {
+			zzvrt.Assert(got, "breaker-step: the first request after the delay is admitted as a trial")
+			zzvrt.Assert(cb.state.state() == HalfOpenState, "breaker-step: open half-opens on the next request once the delay has elapsed")
+			if ho, ok := cb.state.(*halfOpenState[int]); ok {
+				zzvrt.Assert(ho.permittedExecutions == hc-1, "breaker-step: the request that half-opens the breaker takes one of the trial permits")
+			}
+			zzvrt.Assert(changes == 1, "breaker-step: exactly one state-change event per transition")
+		} else {
+			zzvrt.Assert(!got, "breaker-step: an open breaker admits nothing before its delay has elapsed")
+			zzvrt.Assert(cb.state.state() == OpenState, "breaker-step: stays open for exactly the delay")
+			zzvrt.Assert(changes == 0, "breaker-step: no event without a transition")
+		}
+		zzvrt.Reach("open-step-done")
+		return
+	}
+	ok := zzvrt.Choose("result", 2) == 1
+	if ok {
+		cb.RecordSuccess()
+	} else {
+		cb.RecordFailure()
+	}
+	s2, f2 := st.s, st.f // the window after the record (the stub is not replaced by a transition, only abandoned)
+	n2 := s2 + f2
+	want := mode
+	if mode == ClosedState {
+		if n2 >= e {
+			if r != 0 {
+				if zzPct(f2, n2) >= r {
+					want = OpenState
+				}
+			} else if f2 >= fth {
+				want = OpenState
+			}
+		}
+	} else {
+		closeIt, openIt := false, false
+		if sth != 0 {
+			closeIt = s2 >= sth
+			openIt = f2 > cs-sth
+		} else if r != 0 {
+			if n2 >= e {
+				openIt = zzPct(f2, n2) >= r
+				closeIt = zzPct(s2, n2) > 100-r
+			}
+		} else {
+			openIt = f2 >= fth
+			closeIt = s2 > c-fth
+		}
+		if closeIt {
+			want = ClosedState
+		} else if openIt {
+			want = OpenState
+		}
+		if n2 == hc {
+			zzvrt.Assert(want != HalfOpenState, "breaker-step: the half-open decision falls within the trial capacity")
+		}
+	}
+	got := cb.state.state()
+	zzvrt.Observe("state", int(got))
+	zzvrt.Assert(got == want, "breaker-step: state after a recorded result is the documented machine's")
+	if want == mode {
+		zzvrt.Assert(opens+closes+changes == 0, "breaker-step: no event without a transition")
+		if mode == HalfOpenState {
+			if ho, ok := cb.state.(*halfOpenState[int]); ok {
+				zzvrt.Assert(ho.permittedExecutions == permits+1, "breaker-step: a recorded trial gives its permit back")
+			}
+		}
+	} else {
+		zzvrt.Assert(changes == 1, "breaker-step: exactly one state-change event per transition")
+		zzvrt.Assert(opens+closes == 1, "breaker-step: exactly one specific event per transition")
+		zzvrt.Assert((opens == 1) == (want == OpenState), "breaker-step: the specific event matches the new state")
+		zzvrt.Assert(oldSeen == mode, "breaker-step: the event's old state is the state that was left")
+		if want == OpenState {
+			zzvrt.Assert(cb.RemainingDelay() == D, "breaker-step: a freshly opened breaker stays open for the configured delay")
+			zzvrt.Assert(!cb.TryAcquirePermit() || D == 0, "breaker-step: an open breaker admits nothing before its delay has elapsed")
+		}
+	}
+	zzvrt.Reach("record-step-done")
+}
